@@ -1,12 +1,16 @@
 def get(pid):
-    from . import checks_net, checks_p
+    from . import checks_net, checks_p, checks_api
 
     table = {
         "C02": checks_net.C02,
         "C03": checks_net.C03,
         "C04net": checks_net.C04net,
-        "C04": checks_net.C04net,
+        "C04": checks_api.C04,
+        "C06": checks_api.C06,
+        "C15": checks_api.C15,
+        "C17": checks_api.C17,
         "C12": checks_net.C12,
+        "C11": checks_net.C11,
         "C13": checks_p.C13,
         "C14": checks_p.C14,
         "C18": checks_p.C18,
